@@ -16,7 +16,7 @@ META = {
         'wrapper that owns it and deleted only by that wrapper, and the wrapper hands out the function object, so '
         'evicting a cache entry cannot remove another entry\'s function and earlier results keep working; (D3) the '
         'cache key is the filter text itself (the lru_cache\'d function has the text as its only parameter) and '
-        'every caller goes through it; (D4) no module-level mutable container is mutated and read back outside one critical section by the filter functions.  Not decided: exhaustive interleaving exploration; CPython lru_cache '
+        'every caller goes through it; (D4) no module-level mutable container is mutated and read back outside one critical section by the filter functions.  Also (D1): nothing that can fail runs between deriving the generated name from the counter and advancing the counter (a failed compilation consumes its id); (D5) Grid.filter keeps no filter state on the grid.  Not decided: exhaustive interleaving exploration; CPython lru_cache '
         'internals (trusted thread-safe); the 1500-filter history as an execution.'),
     'rule_text': 'obligations = reads/writes of shared module globals on the filter path x lockset, name derivation, '
                  'shared-namespace writes, cache-key facts',
